@@ -30,6 +30,10 @@ def step (s : St) (line : String) : St × String :=
   | ["open", id, conn, dir] =>
     let (s', o) := Mode.step s (.openStream id.toNat! (dir == "in") (conn == "in"))
     (s', outStr o ++ " " ++ showSt s')
+  | ["open", id, conn, dir, _on] =>
+    -- the stream shares the connection of an earlier one: which connection carries a stream is irrelevant to the mode
+    let (s', o) := Mode.step s (.openStream id.toNat! (dir == "in") (conn == "in"))
+    (s', outStr o ++ " " ++ showSt s')
   | ["req", id] =>
     let (s', o) := Mode.step s (.request id.toNat!)
     (s', outStr o ++ " " ++ showSt s')
